@@ -7,24 +7,24 @@ CHECKS = {}
 # Families added while the checks were tested with seeded changes (DESIGN.md 11.4); the exact
 # space of each run is in the evidence file's coverage.rule / coverage.bounds.
 ADDED = {
- "C01": "every needs graph on <=3 (4) jobs; every testdata workflow with one line at a time re-cased; whole sections replaced; channel workflow-inside-a-repository (caller varied against known local interfaces); multi-byte text before broken expressions; 11 schedule spellings; 7 renderings of the line breaks of every seed",
+ "C01": "every needs graph on <=3 (4) jobs; every testdata workflow with one line at a time re-cased; whole sections replaced; channel workflow-inside-a-repository (caller varied against known local interfaces); multi-byte text before broken expressions; 11 schedule spellings; 7 renderings of the line breaks of every seed; block scalars whose text is no YAML value",
  "C02": "wrapped-layout collision inputs; object-filter candidates; exhaustive 3x3-grid check of the two position comparators; 1 vs 2 processors; free-running -race pass; fromJSON objects with case-colliding keys; config with several invalid globs; several unreadable files (errgroup first error); same-line jobs; histories also under a -format template with a file that is not YAML; escaped-line-break ties (known finding); both tool integrations on with every process failing",
  "C03": "seed-e (alternative forms, nested matrix values); key reorderings; sibling type/form variations; a placeholder after a valid one; clean testdata workflows x every locatable scalar; placeholder after text holding }}; project seed (values given to local callee / action inputs); sections given by one expression (siblings mutated)",
  "C04": "34 separators (incl. non-ASCII letters/digits); end marker inside string literals of bare if: conditions (accept side); hexadecimal spellings in both letter cases at every gap of token sequences <=3; bare if: with a premature end marker; every expression tree with <=7 (8) nodes",
- "C05": "mixed-case definitions; matrix across jobs; 4 expression shapes (narrowed operands) around every reference; every workflow re-judged with all references in index spelling; call-input defaults in both event orders; step ids given wholly or partly by an expression; needed job = local reusable workflow with 0 / 1 / 2 declared outputs; inputs references at 17 workflow / job / step positions",
+ "C05": "mixed-case definitions; matrix across jobs; 4 expression shapes (narrowed operands) around every reference; every workflow re-judged with all references in index spelling; call-input defaults in both event orders; step ids given wholly or partly by an expression; needed job = local reusable workflow with 0 / 1 / 2 declared outputs; inputs references at 17 workflow / job / step positions; referring field before run:; rows with invalid values",
  "C06": "include lists / row lists / static include entries with one element made unknown; merged-type and narrowed-operand contexts; 12 typed positions with the value made unknown; call default reading a dispatch-only input; runs-on positions; arrays / objects with unknown element / member types; typed positions of a caller inside a repository; erroneous values at typed inputs",
- "C07": "all scalar positions x quoting x spaces; multi-placeholder strings; multi-character and negated glob patterns; 26 per-rule templates; every locatable scalar of all testdata workflows; scalars carrying an anchor / explicit tag; blanks inside quoted bare conditions; scalars with tag and anchor in either order",
- "C08": "string-index spelled untrusted inputs, github-script input key, typed reusable-workflow input, self-needing job in the noisy seed; an id holding every letter; dual-trigger file; args / entrypoint keys; repeated-key JSON literal; runner labels taken from the matrix",
+ "C07": "all scalar positions x quoting x spaces; multi-placeholder strings; multi-character and negated glob patterns; 26 per-rule templates; every locatable scalar of all testdata workflows; scalars carrying an anchor / explicit tag; blanks inside quoted bare conditions; scalars with tag and anchor in either order; several blanks after node properties; the non-specific tag",
+ "C08": "string-index spelled untrusted inputs, github-script input key, typed reusable-workflow input, self-needing job in the noisy seed; an id holding every letter; dual-trigger file; args / entrypoint keys; repeated-key JSON literal; runner labels taken from the matrix; a step id defined three times",
  "C09": "30 library jobs with scripted shellcheck/pyflakes; 302 jobs of the testdata workflows as predecessor/successor of each other and of the library; call-jobs family (shared context types); label-jobs family under a configuration with self-hosted labels; default-shell families (python / bash / pwsh headers); typed filtered array as matrix value; project-jobs family (calls of local workflows and the jobs that need them, in every order)",
  "C10": "scenario of files that stop early; mixed-case interface names; runtime.GOMAXPROCS answered by the explorer; files outside any repository; nested repository whose .git is a file; scenarios under -config-file; one local action under three spellings; actions / workflows differing in letter case or path spelling; entry points LintRepository / LintDir / LintFiles(project)",
- "C11": "partner chains; script-key casing and multi-line scripts; nested logical operators (narrowed operands); string index '*' on array segments; scripts holding {{ }} of their own; chains continued on the result of a parenthesised logical operator (known finding)",
+ "C11": "partner chains; script-key casing and multi-line scripts; nested logical operators (narrowed operands); string index '*' on array segments; scripts holding {{ }} of their own; chains continued on the result of a parenthesised logical operator (known finding); 14 single-expression positions in 3 scalar styles",
  "C12": "8 embeddings (one inside hashFiles); sibling variations; positions of clean testdata workflows; project caller; operands of comparisons next to unknown-typed operands, negation, index",
- "C13": "keys of the other variant of two-variant mappings (single and pairs); mandatory key removed together with an extra key; re-cased keys; 534 block mappings of clean testdata workflows; pairs of other-variant keys before the first key",
- "C14": "empty/falsy defaults; derivation agreement (file vs AST); secret declaration forms and orders; required / default spellings (True, ~, empty) in the derivation-agreement family; 20 number-like plain scalars; local action at 3 locations x 6 spellings; inputs named args / entrypoint; literals in every YAML spelling, quoted scalars; 4 forms of the callee's on:",
- "C15": "stdin spellings; further paths entries; independent -ignore pattern sets; invocations with 2-3 files of 4 locations (also through -format); patterns given as YAML aliases; non-string ignore elements; a workflow that is not YAML; repositories whose .git is a file; diagnostics of different rules at one position (order of ties)",
+ "C13": "keys of the other variant of two-variant mappings (single and pairs); mandatory key removed together with an extra key; re-cased keys; 534 block mappings of clean testdata workflows; pairs of other-variant keys before the first key; near-miss keys built from the keys present",
+ "C14": "empty/falsy defaults; derivation agreement (file vs AST); secret declaration forms and orders; required / default spellings (True, ~, empty) in the derivation-agreement family; 20 number-like plain scalars; local action at 3 locations x 6 spellings; inputs named args / entrypoint; literals in every YAML spelling, quoted scalars; 4 forms of the callee's on:; block scalars holding comments / document markers",
+ "C15": "stdin spellings; further paths entries; independent -ignore pattern sets; invocations with 2-3 files of 4 locations (also through -format); patterns given as YAML aliases; non-string ignore elements; a workflow that is not YAML; repositories whose .git is a file; diagnostics of different rules at one position (order of ties); literals anchored at both ends",
  "C16": "13 structured wrappers; 31 multi-site templates; LintFiles orderings (printed = returned); every testdata workflow in all modes; payloads in local action metadata / reusable workflow files (project family); CR and U+2028 as source line breaks; end-to-end caret placement; gutter of multi-digit line numbers; paths of missing local callees; colour mode really coloured (NO_COLOR removed), tabs before the caret",
  "C17": "TAB in the alphabet; 7 end-to-end layouts over all events that take ref/path filters (lists with empty / non-scalar elements); U+FEFF in the alphabet; patterns next to ${{ }} placeholders; a C1 control character; events without filters around the filtered ones; NUL in the alphabet; trailing-space column in characters",
- "C18": "two dangling references; odd id spellings; jobs on one source line; every letter of the alphabet in ids; ids that are substrings of each other; pairs of ids that concatenate to the same text",
+ "C18": "two dangling references; odd id spellings; jobs on one source line; every letter of the alphabet in ids; ids that are substrings of each other; pairs of ids that concatenate to the same text; the same missing id needed by two jobs",
  "C19": "expression members at every depth in 5 spellings; two include entries; expression row + literal include; keys in 4 letter-case combinations; every exclude case after each of 4 other jobs",
  "C20": "killed-after-output outcomes; JSON followed by further output; equal scripts in several steps; broken repository of a later file; pyflakes crash on stderr; real-process slice (script sizes 0 .. 1 MiB through the real os/exec); race pass; goroutines past their function are not counted as unfinished invocations; GOMAXPROCS above the CPU count; all-fail scenarios; }} inside string literals of placeholders",
 }
